@@ -52,6 +52,7 @@ var _ sync.Mutex
 	cell("folded-constant-conditions", "\tconst dbg = false\n\tm := map[string]bool{\"a\": true}\n\tfor _, k := range []string{\"a\", \"b\"} {\n\t\tif !true || m[k] {\n\t\t\tobs(\"or1\", k)\n\t\t}\n\t\tif m[k] && !dbg {\n\t\t\tobs(\"and2\", k)\n\t\t}\n\t\tswitch {\n\t\tcase !true:\n\t\t\tobs(\"never\")\n\t\tcase dbg:\n\t\t\tobs(\"dbg\")\n\t\tcase !dbg && m[k]:\n\t\t\tobs(\"sw\", k)\n\t\tdefault:\n\t\t\tobs(\"default\", k)\n\t\t}\n\t\tx := !true || m[k]\n\t\tobs(\"x\", x, !(1 > 2) && m[k])\n\t}\n")
 	cell("tuple-assignments", "\tf := func() int { return 10 }\n\ta, b := 1, 2\n\tb, a = a, f()\n\tobs(\"ab\", a, b)\n\ta, b = f(), a\n\tobs(\"ab2\", a, b)\n\tt := RT{1, 2}\n\tp := &t\n\tt.x, p = 5, nil\n\tobs(\"t\", t.x, p == nil)\n\tarr := [3]int{1, 2, 3}\n\tarr[0], arr[1] = arr[1], arr[0]\n\tobs(\"arr\", arr)\n")
 	cell("paren-operand-in-logical", "\tr, i, q := true, 1, 4\n\tr = ((i) == q) && r\n\tobs(\"r\", r)\n\tr = ((i) < q) || r\n\tb := false\n\tr2 := (b) || r\n\tobs(\"r2\", r, r2, ((b) == false) && r)\n")
+	cell("bool-received-in-condition", "\tmessages := make(chan bool)\n\tgo func() {\n\t\tn := 0\n\t\tfor i := 0; i < 2000; i++ {\n\t\t\tn += i % 3\n\t\t}\n\t\tmessages <- n > 0\n\t}()\n\tobs(\"and\", <-messages && true)\n\tgo func() { messages <- true }()\n\tif <-messages {\n\t\tobs(\"if\")\n\t}\n")
 	cell("send-directions", "\tc := make(chan int, 1)\n\tvar so chan<- int = c\n\tvar ro <-chan int = c\n\tso <- 4\n\tobs(\"v\", <-ro)\n\tselect {\n\tcase so <- 9:\n\t\tobs(\"sent\", len(c))\n\tdefault:\n\t\tobs(\"full\")\n\t}\n")
 	return p
 }
